@@ -1,4 +1,4 @@
-//@ kernel rulegroups serves=C10,C11
+//@ kernel rulegroups serves=C10,C11,C16,C02
 //@ include driver.v.rs
 //@ item src/lib.rs struct RuleGroup
 //@ item src/lib.rs fn parse_rule_groups
